@@ -131,6 +131,15 @@ def handle (j : J) : Except String J := do
     let ev2s : Ev → String := fun e => match e with | .validate => "validate" | .compile => "compile" | .lookup => "lookup"
     let r2s : PrepR → String := fun e => match e with | .prepared => "prepared" | .permFail => "permFail" | .retry => "retry"
     pure (.obj [("trace", ofStrs (tr.map ev2s)), ("result", .str (r2s r))])
+  | "overlayInputs" =>
+    -- {"op":"overlayInputs","keys":[dynamic_input_keys of the ValueFunction],"provided":[input names]}
+    let keys := (← j.getArr "keys").filterMap J.str?
+    let provided := (← j.getArr "provided").filterMap J.str?
+    let needed := J.arr ((neededInputs keys).map J.ofOptStr)
+    match overlayInputsCheck modelJoinStyle keys provided with
+    | .ok none => pure (.obj [("needed", needed), ("missing", .null)])
+    | .ok (some names) => pure (.obj [("needed", needed), ("missing", ofStrs names)])
+    | .error e => pure (.obj [("needed", needed), ("raise", .str e)])
   | "registry" =>
     -- {"op":"registry","versions":[apiVersion…]}: a run of ResourceFunction prepares in one process
     let avs := (← j.getArr "versions").filterMap J.str?
